@@ -1051,6 +1051,15 @@ def reparent(tree):
             child._parent = node
 
 
+def _own_methods(trees, cname):
+    """names of the methods defined directly in the body of class `cname` (first definition found)"""
+    for t in trees.values():
+        for n in ast.walk(t):
+            if isinstance(n, ast.ClassDef) and n.name == cname:
+                return {m.name for m in n.body if isinstance(m, (ast.FunctionDef, ast.AsyncFunctionDef))}
+    return set()
+
+
 def class_table(trees):
     """class name -> [(bases by simple name, {method names})]"""
     out = {}
@@ -1206,6 +1215,32 @@ def normalise(trees, known=None, sources=None):
             if '%s:%s' % (rel, qual) not in known:
                 new.append((rel, qual, node, cls))
     report = []
+    if new:
+        # a method that was moved up into a (new) base class under its own name is still the method the rules know: it stays a
+        # function of its own (Repo.fn resolves the old qualified name through the MRO)
+        classes0 = class_table(trees)
+        known_meths = {}
+        for q in known:
+            if ':=' in q or ':' not in q:
+                continue
+            qual = q.split(':', 1)[1]
+            if qual.count('.') == 1:
+                k, m = qual.split('.')
+                known_meths.setdefault(m, set()).add(k)
+        kept = []
+        for rel, qual, node, cls in new:
+            moved = False
+            if cls is not None and qual.count('.') == 1:
+                for k in known_meths.get(node.name, ()):
+                    if k != cls.name and k in classes0 and len(classes0[k]) == 1 and node.name not in _own_methods(trees, k) and \
+                            cls.name in _mro_names(classes0, k):
+                        moved = True
+                        break
+            if moved:
+                report.append(('kept', qual, '-', 'method moved up from a subclass that the rules know'))
+            else:
+                kept.append((rel, qual, node, cls))
+        new = kept
     if not new:
         return {}, report
     # nested definitions with the same name make a bare-name call ambiguous as well
